@@ -194,6 +194,43 @@ func genCborEnc(g *G, tier string, emit func(string)) {
 		return strings.HasPrefix(r, "starved")
 	})
 	genDeep(emit)
+	genLengths(emit)
+	// (e) strings of every length around the decoder-side scratch buffer followed by further items (the round trip
+	// reads them back through the real decoder and looks at the tokens when the run is over); floats after heads of
+	// every size (the encoder's scratch bytes are re-sliced per head)
+	for n := 0; n <= 70; n++ {
+		for _, k := range []string{"s", "x"} {
+			one := k + strings.Repeat(fmt.Sprintf("%02x", 'a'+n%26), n)
+			emit("[4 " + one + " " + k + "56414c5545 u1000 " + one + " ]")
+			emit("{2 s6b " + one + " s" + one[1:] + "7a f3ff8000000000001 }")
+			emit("[-1 " + one + " u70000 " + one + " f3ff8000000000001 ]")
+		}
+	}
+	for _, v := range []uint64{0, 23, 24, 255, 256, 65535, 65536, 1<<32 - 1, 1 << 32} {
+		u := strconv.FormatUint(v, 10)
+		emit("[2 u" + u + " f3ff8000000000001 ]")
+		emit("[2 i-" + strconv.FormatUint(v+1, 10) + " fbff0000000000000 ]")
+		emit("[" + u + " f3ff8000000000001")
+		emit("#" + u + "f3ff8000000000001")
+		emit("{1 s" + strings.Repeat("61", int(v%300)) + " f3ff8000000000001 }")
+	}
+	// (f) definite containers nested 1..45 deep, each level followed by a sibling
+	for depth := 1; depth <= 45; depth++ {
+		for shape := 0; shape < 3; shape++ {
+			var out, tail []string
+			for d := 0; d < depth; d++ {
+				if shape == 0 || (shape == 2 && d%2 == 0) {
+					out = append(out, "[2")
+					tail = append([]string{"u" + strconv.Itoa(d), "]"}, tail...)
+				} else {
+					out = append(out, "{2", "s6e")
+					tail = append([]string{"s73", "u" + strconv.Itoa(d), "}"}, tail...)
+				}
+			}
+			out = append(out, "[0", "]")
+			emit(strings.Join(append(out, tail...), " "))
+		}
+	}
 }
 
 var encAlphabet = []string{"{1", "{-1", "}", "[2", "[-1", "]", "n", "s6b", "x00", "bt", "i-1", "u24", "f3ff0000000000000", "#7s6b", "#7[-1", "#7{0"}
